@@ -1,4 +1,5 @@
 import sys,re
+# unmarshalVarchar *[]byte: null no longer sets nil (the seeded change C04-4)
 p=sys.argv[1]+'/marshal.go'; s=open(p).read()
 old="""		if data != nil {
 			*v = append((*v)[:0], data...)
